@@ -36,21 +36,35 @@ class Engine:
         self.ufs = {}
         self.unknowns = 0
 
-    # ---- solver plumbing
-    def _check(self, *terms):
-        s = z3.Solver()
-        s.set("timeout", self.timeout_ms)
+    # ---- solver plumbing (one incremental solver per path; extra terms via push/pop)
+    def _new_path(self):
+        self.vars, self.decisions = [], []
+        self.pc = _PC(self)
+        self.solver = z3.Solver()
+        self.solver.set("timeout", self.timeout_ms)
         for a in self.axioms:
-            s.add(a)
-        for t in self.pc:
-            s.add(t)
-        for t in terms:
-            s.add(t)
+            self.solver.add(a)
+        self._axioms_in_solver = len(self.axioms)
+
+    def _check(self, *terms):
+        s = self.solver
+        while self._axioms_in_solver < len(self.axioms):
+            s.add(self.axioms[self._axioms_in_solver])
+            self._axioms_in_solver += 1
         t0 = time.perf_counter()
-        r = s.check()
+        if terms:
+            s.push()
+            for t in terms:
+                s.add(t)
+            r = s.check()
+            holder = _ModelHolder(s.model() if r == z3.sat else None)
+            s.pop()
+        else:
+            r = s.check()
+            holder = _ModelHolder(s.model() if r == z3.sat else None)
         self.solver_s += time.perf_counter() - t0
         self.queries += 1
-        return str(r), s
+        return str(r), holder
 
     # ---- inputs
     def real(self, name, lo=None, hi=None):
@@ -129,7 +143,7 @@ class Engine:
                 yield {"status": "budget"}
                 return
             self.schedule = self.pending.pop()
-            self.vars, self.pc, self.decisions = [], [], []
+            self._new_path()
             paths += 1
             detail = None
             try:
@@ -184,6 +198,26 @@ class Engine:
 
 class Infeasible(Exception):
     pass
+
+
+class _PC(list):
+    """path condition: a list that mirrors every append into the path's incremental solver"""
+
+    def __init__(self, engine):
+        super().__init__()
+        self._e = engine
+
+    def append(self, term):
+        super().append(term)
+        self._e.solver.add(term)
+
+
+class _ModelHolder:
+    def __init__(self, m):
+        self._m = m
+
+    def model(self):
+        return self._m
 
 
 def _lift(engine, x):
